@@ -229,8 +229,22 @@ func VerifHealthHistory() {
 		}
 		now := gosym.Now()
 		before := cl.calls
-		ch.checkEndpointSafely(context.Background(), snap[0])
-		gosym.RunPending()
+		if gosym.Param("LOOP") == 1 {
+			// through the scheduler's tick: only endpoints that are due are checked, and a due
+			// endpoint is checked (performHealthChecks takes its own snapshot)
+			due := !gosym.TimeNow().Before(repo.stored.NextCheckTime)
+			updatesBefore := repo.updates
+			ch.performHealthChecks(context.Background())
+			gosym.RunPending()
+			if !due {
+				gosym.Assert(cl.calls == before && repo.updates == updatesBefore, "an endpoint that is not due is neither probed nor updated")
+				continue
+			}
+			gosym.Reach("due")
+		} else {
+			ch.checkEndpointSafely(context.Background(), snap[0])
+			gosym.RunPending()
+		}
 		probed := cl.calls > before
 		blocked := false
 		if bopen {
